@@ -57,7 +57,7 @@ var c19Pool = []keyPair{}
 
 func c19Keys() []keyPair {
 	if len(c19Pool) == 0 {
-		c19Pool = []keyPair{keyFor(icose.EdDSA, 0), keyFor(icose.EdDSA, 1), keyFor(icose.ES256, 0), keyFor(icose.PS256, 0), keyFor(icose.ES384, 0)}
+		c19Pool = []keyPair{keyFor(icose.EdDSA, 0), keyFor(icose.EdDSA, 1), keyFor(icose.ES256, 0), keyFor(icose.PS256, 0), keyFor(icose.ES384, 0), keyFor(icose.ES512, 0), oddRSAKey(icose.PS384, 0)}
 	}
 	return c19Pool
 }
@@ -339,13 +339,43 @@ func c19Run(t *rapid.T, st *Stats) {
 		"Sign":            func(t *rapid.T) { doSign(t, false) },
 		"ValidateAndSign": func(t *rapid.T) { doSign(t, true) },
 		"UnmarshalCOSE": func(t *rapid.T) {
-			kind := rapid.SampledFrom([]string{"valid", "valid", "invalid-claims", "invalid-claims", "other-profile", "tampered-signature", "payload-not-claims", "payload-bad-claim", "payload-bad-claim", "garbage", "truncated", "own-last-token"}).Draw(t, "token")
+			kind := rapid.SampledFrom([]string{"valid", "valid", "valid-other-header-spelling", "valid-other-header-spelling", "invalid-claims", "invalid-claims", "other-profile", "tampered-signature", "payload-not-claims", "payload-bad-claim", "payload-bad-claim", "garbage", "truncated", "own-last-token"}).Draw(t, "token")
 			ki := rapid.IntRange(0, len(keys)-1).Draw(t, "key")
 			k := keys[ki]
 			var tok []byte
 			layer := "ok" // expected outcome: ok | claims | cose
 			keyIdx := ki
 			switch kind {
+			case "valid-other-header-spelling":
+				// correctly signed by an encoder that spells the protected
+				// header differently (algorithm with a longer head, further
+				// parameters before / after it, a long map head): the signature
+				// covers THOSE bytes
+				m := GenValid(t, drawProf(t), false)
+				algN := icbor.I(k.Alg)
+				var pm *icbor.Node
+				switch rapid.IntRange(0, 4).Draw(t, "spelling") {
+				case 0:
+					pm = icbor.Map(icbor.P(icbor.U(1), algN.WithHead(2)))
+				case 1:
+					pm = icbor.Map(icbor.P(icbor.I(-65537), icbor.Tstr("x")), icbor.P(icbor.U(1), algN))
+				case 2:
+					pm = icbor.Map(icbor.P(icbor.U(1), algN), icbor.P(icbor.U(4), icbor.Bstr([]byte("kid-1")))).WithHead(2)
+				case 3:
+					pm = icbor.Map(icbor.P(icbor.U(1).WithHead(8), algN))
+				default:
+					pm = icbor.Map(icbor.P(icbor.U(3), icbor.U(60)), icbor.P(icbor.U(1), algN))
+				}
+				prot := icbor.Encode(pm)
+				pay := m.WireBytes()
+				sg, serr := icose.Sign(k.Alg, k.Priv, prot, pay)
+				if serr != nil {
+					t.Fatalf("VERIF-INFRA: %v", serr)
+				}
+				tok = icbor.Encode(icose.Envelope(prot, icbor.Map(), pay, sg))
+				if _, derr := psatoken.DecodeEvidenceFromCOSE(tok); derr != nil {
+					t.Skip("this spelling of the protected header is not accepted")
+				}
 			case "valid", "other-profile", "tampered-signature":
 				m := GenValid(t, drawProf(t), false)
 				var err error
